@@ -221,6 +221,12 @@ def main_c13(tier, seed):
             before = knn_state(sg)
             if any(v != v for v in before["dens"]):
                 continue
+            bad_c0 = [j for j in range(n) if before["cost"][j] != before["dens"][j] - 1]
+            if bad_c0 and nviol < 3:
+                j = bad_c0[0]
+                nviol += 1
+                rep.violation("after calculate_pdf the initial cost of sample %d is %r, its density minus 1 is %r: the competition's bound "
+                              "'cost strictly above density - 1' is then a different bound" % (j, before["cost"][j], before["dens"][j] - 1), d, key="clustering:initial_cost")
             if packed or idx % 8 < 2:
                 # densities packed (almost) within 1 of each other - what a distant outlier does to the [1, 1000] normalisation
                 base = rng.uniform(1.0, 990.0)
